@@ -1362,11 +1362,18 @@ fn gen_case(rng: &mut Rng, n: usize, tier: &str, scratch: &std::path::Path, out:
         if rng.chance(if sparse { 3 } else { 1 }, 14) {
             // query calls at a random position, once or repeated (C17)
             ops.push(Op::Get(1 + rng.below(2) as usize));
-        } else if rng.chance(1, 10) {
+        } else if rng.chance(1, 7) {
             // ---- scenario productions: multi-step situations a uniform walk rarely reaches ----
+            // one of the scenarios is drawn with equal weight (a draw whose precondition does not hold, or one of the
+            // last three numbers, falls through to the plain productions below): adding a scenario does not starve
+            // the others
             let digit = |rng: &mut Rng| key_op(ALL_CODES[1 + rng.below(3) as usize], none);
+            let pick = rng.below(N_SCENARIOS + 3);
+            if !selecting && pick < N_SCENARIOS {
+                *stats.kinds.entry(format!("scenario-draw-{:02}", pick)).or_insert(0) += 1;
+            }
             match rng.below(if selecting { 5 } else { 2 }) {
-                _ if !selecting && rng.chance(1, 4) => {
+                _ if !selecting && pick == 0 => {
                     // a syllable is left without a word: (a) typed under the fuzzy lookup, then the engine
                     // is switched back to the standard one; (b) its only word is a user word that is
                     // removed after typing it.  Then the list is opened, cycled, a choice tried, committed.
@@ -1409,7 +1416,7 @@ fn gen_case(rng: &mut Rng, n: usize, tier: &str, scratch: &std::path::Path, out:
                     ops.push(key_op(*rng.pick(&[Esc, Enter, Tab]), none));
                     ops.push(key_op(Enter, none));
                 }
-                _ if !selecting && !setup.abbr.is_empty() && rng.chance(1, 4) => {
+                _ if !selecting && !setup.abbr.is_empty() && pick == 1 => {
                     // easy-symbol input: an abbreviation key (Shift + letter of swkb.dat) pressed with the cursor in the
                     // MIDDLE of the buffer expands to several characters at the cursor, the cursor ends right after
                     // them, and the next key / Backspace acts there (seeded change C05-E)
@@ -1435,7 +1442,7 @@ fn gen_case(rng: &mut Rng, n: usize, tier: &str, scratch: &std::path::Path, out:
                     }
                     ops.push(Op::Get(1));
                 }
-                _ if !selecting && rng.chance(1, 6) => {
+                _ if !selecting && pick == 2 => {
                     // the buffer at its limit after a key that pushed text out (the commit string is not empty); then - no
                     // key and no ack in between - the limit is lowered and a choice made through the API pushes out more:
                     // what that commits is a leading part of the conversion, nothing of the earlier commit string
@@ -1457,7 +1464,7 @@ fn gen_case(rng: &mut Rng, n: usize, tier: &str, scratch: &std::path::Path, out:
                     ops.push(Op::Select(rng.below(2) as usize));
                     ops.push(Op::Get(1));
                 }
-                _ if !selecting && rng.chance(1, 6) => {
+                _ if !selecting && pick == 3 => {
                     // two or three one-syllable choices made from left to right, then an edit that destroys the FIRST of
                     // them (Delete on it / Backspace behind it): the later choices move along with their symbols and
                     // stay displayed (seeded changes C04-D, C04-F)
@@ -1504,7 +1511,7 @@ fn gen_case(rng: &mut Rng, n: usize, tier: &str, scratch: &std::path::Path, out:
                         ops.push(Op::Get(1));
                     }
                 }
-                _ if !selecting && world.no_word.iter().any(|x| *x) && rng.chance(1, 5) => {
+                _ if !selecting && world.no_word.iter().any(|x| *x) && pick == 4 => {
                     // auto-commit pushes out a syllable that has no word at all: it is shown (and committed) by its
                     // spelling, several characters for ONE symbol - exactly one symbol leaves the buffer for it and the
                     // neighbours stay (seeded change C02-E)
@@ -1530,7 +1537,7 @@ fn gen_case(rng: &mut Rng, n: usize, tier: &str, scratch: &std::path::Path, out:
                     ops.push(Op::Get(1));
                     ops.push(key_op(Enter, none));
                 }
-                _ if !selecting && world.chain.is_some() && rng.chance(1, 6) => {
+                _ if !selecting && world.chain.is_some() && pick == 5 => {
                     // a user phrase added (Ctrl-digit, or Shift-arrows + Enter) over a range that ENDS INSIDE a converted
                     // two-syllable word; the buffer is committed, the same syllables are typed again and the alternatives
                     // cycled: whatever was stored has one character per syllable, so the new conversion still tiles
@@ -1569,7 +1576,7 @@ fn gen_case(rng: &mut Rng, n: usize, tier: &str, scratch: &std::path::Path, out:
                     ops.push(Op::Get(1));
                     ops.push(key_op(Enter, none));
                 }
-                _ if !selecting && world.chain.is_some() && rng.chance(1, 5) => {
+                _ if !selecting && world.chain.is_some() && pick == 6 => {
                     // auto-shift after a choice made for ANOTHER range than the one the list was opened at: two
                     // two-syllable words, the cursor inside the second one (or at its start), the list opened, `j`
                     // moves the range to the first word, a candidate is chosen: the saved cursor comes back and moves
@@ -1601,7 +1608,7 @@ fn gen_case(rng: &mut Rng, n: usize, tier: &str, scratch: &std::path::Path, out:
                         ops.push(key_op(*k, none));
                     }
                 }
-                _ if !selecting && rng.chance(1, 5) => {
+                _ if !selecting && pick == 7 => {
                     // a phrase list whose range is moved with j / k and that is left by a choice, Backspace or Up;
                     // afterwards symbols are inserted through the symbol table in the middle of the buffer (every
                     // saved cursor must have been dropped by then: seeded change C05-D), and one is removed again
@@ -1631,7 +1638,7 @@ fn gen_case(rng: &mut Rng, n: usize, tier: &str, scratch: &std::path::Path, out:
                         ops.push(key_op(Backspace, none));
                     }
                 }
-                _ if !selecting && rng.chance(1, 5) => {
+                _ if !selecting && pick == 8 => {
                     // a break (or glue) set with Tab inside the buffer, then a choice for the range that starts
                     // exactly there, then more typing: the break must survive the choice (seeded change C04-B)
                     for _ in 0..(2 + rng.below(3)) {
@@ -1658,7 +1665,7 @@ fn gen_case(rng: &mut Rng, n: usize, tier: &str, scratch: &std::path::Path, out:
                         ops.push(key_op(*k, none));
                     }
                 }
-                _ if !selecting && world.chain.is_some() && rng.chance(1, 4) => {
+                _ if !selecting && world.chain.is_some() && pick == 9 => {
                     // alternatives, then commit: type a b c (d) of the chain (two or more segmentations), Tab at
                     // the end of the buffer shows the next alternative, then Enter / commit with learning on: what
                     // is committed (and learned) is what was displayed, whatever learning does to the ranking
@@ -1694,7 +1701,7 @@ fn gen_case(rng: &mut Rng, n: usize, tier: &str, scratch: &std::path::Path, out:
                     }
                     ops.push(if rng.chance(2, 3) { key_op(Enter, none) } else { Op::Commit });
                 }
-                _ if !selecting && (setup.layout == 1 || setup.layout == 5) && rng.chance(1, 3) => {
+                _ if !selecting && (setup.layout == 1 || setup.layout == 5) && pick == 10 => {
                     // Hsu / ET26: a one-syllable list (own words + the words of the alternative readings) at one or two
                     // per page, paged to its end, then the layout is switched to one without alternates
                     let mut o = opts_vec(&ed.editor_options());
@@ -1712,7 +1719,7 @@ fn gen_case(rng: &mut Rng, n: usize, tier: &str, scratch: &std::path::Path, out:
                     ops.push(Op::Layout(*rng.pick(&[0u8, 2, 6])));
                     ops.push(key_op(*rng.pick(&[N1, N2, Right, Left]), none));
                 }
-                _ if !selecting && rng.chance(1, 6) => {
+                _ if !selecting && pick == 11 => {
                     // Caps Lock / Shift-Space in the highlighting state (Shift-Left / Shift-Right over a non-empty
                     // buffer), then a printable key: the mode toggles there too (seeded change C18-C)
                     for _ in 0..(2 + rng.below(2)) {
@@ -1732,7 +1739,7 @@ fn gen_case(rng: &mut Rng, n: usize, tier: &str, scratch: &std::path::Path, out:
                     ops.push(key_op(*rng.pick(&[A, N1, Comma, Z]), none));
                     ops.push(key_op(*rng.pick(&[Enter, Esc, A]), none));
                 }
-                _ if !selecting && rng.chance(1, 6) => {
+                _ if !selecting && pick == 12 => {
                     // a one-syllable choice whose word then leaves the dictionary (learn, type, choose it, unlearn):
                     // the choice stays on screen and is committed (seeded change C04-C)
                     let i = rng.below(world.syls.len() as u64) as usize;
@@ -1751,7 +1758,7 @@ fn gen_case(rng: &mut Rng, n: usize, tier: &str, scratch: &std::path::Path, out:
                     }
                     ops.push(key_op(*rng.pick(&[Enter, Tab, Left]), none));
                 }
-                _ if !selecting && rng.chance(1, 6) => {
+                _ if !selecting && pick == 13 => {
                     // a list opened with a single key, the user dictionary changed for exactly the highlighted
                     // syllable before any other key, then a choice near the end of the list: the never-queried
                     // twin must see the same list as the observed editor (seeded change C17-C)
@@ -1770,7 +1777,7 @@ fn gen_case(rng: &mut Rng, n: usize, tier: &str, scratch: &std::path::Path, out:
                     let n = words.len();
                     ops.push(Op::Select(match rng.below(3) { 0 => n, 1 => n.saturating_sub(1), _ => rng.below(n as u64 + 2) as usize }));
                 }
-                _ if !selecting && rng.chance(1, 6) => {
+                _ if !selecting && pick == 14 => {
                     // a long phrase (12..14 syllables) in the user dictionary, typed, chosen as a whole at the start
                     // of the buffer, then edited further (seeded change C03-C: an edge longer than 11 symbols)
                     let n = 12 + rng.below(3) as usize;
@@ -2043,6 +2050,8 @@ fn gen_case(rng: &mut Rng, n: usize, tier: &str, scratch: &std::path::Path, out:
         *stats.states.entry(s).or_insert(0) += 1;
     }
 }
+
+const N_SCENARIOS: u64 = 15;
 
 #[derive(Default)]
 struct Stats {
